@@ -233,6 +233,9 @@ func catalogue() []mechType {
 		}}}},
 		{"authenticators", "authenticator", "unauthorized", []variant{{"minimal", nil, nil}}},
 		{"authenticators", "authenticator", "basic_auth", []variant{{"minimal", lv(cc+"user_id", "u", cc+"password", "p"), []option{
+			// strings that consist of digits
+			s("authenticator-basic_auth", "password-of-digits", cc+"password", `"12345"`),
+			s("authenticator-basic_auth", "user_id-of-digits", cc+"user_id", `"42"`),
 			s("authenticator-basic_auth", "allow_fallback_on_error", cc+"allow_fallback_on_error", "true"),
 		}}}},
 		{"authenticators", "authenticator", "generic", []variant{
@@ -769,7 +772,7 @@ func schemaUnits() []schemaUnit {
 					units = append(units, schemaUnit{base: true, typeKey: "notation/" + mt.Kind + "/" + mt.Type + "/" + nt.how,
 						key: "notation/" + key + "/" + nt.how, cs: &SchemaCase{
 							Kind: "schema", Subject: mt.KindSig + "-type-name-" + nt.how,
-							What:   fmt.Sprintf("%s type %s written %s (%s)", mt.KindSig, mt.Type, nt.how, nt.typ), Leaves: nl,
+							What: fmt.Sprintf("%s type %s written %s (%s)", mt.KindSig, mt.Type, nt.how, nt.typ), Leaves: nl,
 						}})
 				}
 			}
